@@ -5,6 +5,7 @@ import Nlmodel.Driver.Tables
 import Nlmodel.Driver.ObjOps
 import Nlmodel.Driver.TreeGen
 import Nlmodel.Model.Session
+import Nlmodel.Driver.GcOps
 open Nl
 
 /-- character classes: loaded from the table dumped by the harness from Rust's std
@@ -109,6 +110,7 @@ def handle (cc : CharClass) (line : String) : String :=
     match hs.mapM unhexText with
     | some ls => " ;; ".intercalate ((Session.lines cc b.toNat! {} ls).map Obs.show)
     | none => "bad-hex"
+  | "gcops" :: ops => handleGcOps ops
   | ["tables"] => modelTables
   | "obj" :: rest => handleObj rest
   | ["evalx", b, h] =>
